@@ -58,6 +58,8 @@ def cases(tier):
     add(3, 3, _lists(3, 3, 2), 'order', 'lists<=2', 3)
     sel43 = [[], [(0, 0)], [(3, 2)], [(0, 0), (1, 1), (2, 2), (3, 0)], [(0, 1), (0, 2)], [(1, 2), (1, 2), (3, 0)]]
     add(4, 3, sel43, 'order', 'selected', 1)
+    for (a, b) in ((2, 2), (3, 2), (2, 3)):
+        add(a, b, _lists(a, b, 2), 'order2', 'two-calls/lists<=2', 4)
     add(2, 2, _lists(2, 2, 3), 'exact', 'lists<=3', 12)
     add(3, 2, _lists(3, 2, 1), 'exact', 'lists<=1', 1)
     if tier == 'thorough':
@@ -121,24 +123,30 @@ def run_case(case):
     Av = [[z3.Real('a%d_%d' % (j, k)) for k in range(3)] for j in range(n2)]   # construction-time mobile coordinates
     Mv = [[z3.Real('m%d_%d' % (j, k)) for k in range(3)] for j in range(n2)]   # call-time mobile coordinates
     Dv = [[z3.Real('D%d_%d' % (i, j)) for j in range(n2)] for i in range(n1)]
+    M2v = [[z3.Real('q%d_%d' % (j, k)) for k in range(3)] for j in range(n2)]   # coordinates of a second call on the same calculator
+    D2v = [[z3.Real('E%d_%d' % (i, j)) for j in range(n2)] for i in range(n1)]
     coord_inputs = {}
-    for nm, V in (('f', Fv), ('a', Av), ('m', Mv)):
+    for nm, V in (('f', Fv), ('a', Av), ('m', Mv), ('q', M2v)):
         for i, row in enumerate(V):
             for k in range(3):
                 coord_inputs['%s%d_%d' % (nm, i, k)] = row[k]
     exactD = [[sum((Fv[i][k] - Mv[j][k]) ** 2 for k in range(3)) for j in range(n2)] for i in range(n1)]
+    exactD2 = [[sum((Fv[i][k] - M2v[j][k]) ** 2 for k in range(3)) for j in range(n2)] for i in range(n1)]
 
     def make_run(R, use_mode):
         def run(ctx):
             F = np.array([[SymReal(v) for v in row] for row in Fv], dtype=object)
             A = np.array([[SymReal(v) for v in row] for row in Av], dtype=object)
             M = np.array([[SymReal(v) for v in row] for row in Mv], dtype=object)
+            M2 = np.array([[SymReal(v) for v in row] for row in M2v], dtype=object)
             ids = {id(F[i, 0]): i for i in range(n1)}
-            D = Dv if use_mode == 'order' else exactD
+            two = use_mode in ('order2', 'exact2')
+            Ds = {id(M[0, 0]): (Dv if use_mode.startswith('order') else exactD), id(M2[0, 0]): (D2v if use_mode.startswith('order') else exactD2)}
 
             def cdist_stub(X, Y, metric):
                 assert metric == 'sqeuclidean'
-                assert Y is M or all(Y[j, 0] is M[j, 0] for j in range(n2)), 'cdist called on something else than the call-time coordinates'
+                assert id(Y[0, 0]) in Ds, 'cdist called on something else than the call-time coordinates'
+                D = Ds[id(Y[0, 0])]
                 out = np.empty((len(X), n2), dtype=object)
                 for r in range(len(X)):
                     i = ids[id(X[r, 0])]
@@ -146,14 +154,17 @@ def run_case(case):
                         out[r, j] = SymReal(D[i][j])
                 return out
             be.cdist = cdist_stub
-            for i in range(n1):
-                for j in range(n2):
-                    if use_mode == 'order':
-                        ctx.assume(Dv[i][j] >= 0)
-                    for k in range(j):
-                        ctx.assume(D[i][j] != D[i][k])
+            for D in ([Ds[id(M[0, 0])], Ds[id(M2[0, 0])]] if two else [Ds[id(M[0, 0])]]):
+                for i in range(n1):
+                    for j in range(n2):
+                        if use_mode.startswith('order'):
+                            ctx.assume(D[i][j] >= 0)
+                        for k in range(j):
+                            ctx.assume(D[i][j] != D[i][k])
             calc = be.Chi2Calculator(F, A, list(R) if R else None)
             val = calc(M)
+            if two:
+                return val, calc(M2)
             return val
         return run
 
@@ -162,10 +173,13 @@ def run_case(case):
         R = [tuple(p) for p in R]
         tag = 'R=%s' % (R,)
         inputs = dict(coord_inputs)
-        if mode == 'order':
+        if mode.startswith('order'):
             inputs.update({'D%d_%d' % (i, j): Dv[i][j] for i in range(n1) for j in range(n2)})
-        D = Dv if mode == 'order' else exactD
+        D = Dv if mode.startswith('order') else exactD
         orc = _oracle(Fv, Mv, R, D, n1, n2)
+        if mode == 'order2':
+            inputs.update({'E%d_%d' % (i, j): D2v[i][j] for i in range(n1) for j in range(n2)})
+            orc2nd = _oracle(Fv, M2v, R, D2v, n1, n2)
         np_here = 0
         for ctx, res, exc in explore(make_run(R, mode), max_paths=3000):
             st['paths'] += 1
@@ -176,6 +190,9 @@ def run_case(case):
             nontrivial.append('%s/p%d' % (tag, np_here))
             if np_here == 1:
                 records.append(core_twin(ctx, cap))
+            second = None
+            if mode == 'order2':
+                res, second = res
             val = expr(res)
             claim = val == orc
             if mode == 'exact':
@@ -186,11 +203,13 @@ def run_case(case):
             rec = {'name': '%s path%d: value == reference definition' % (tag, np_here), 'status': r, 'secs': secs}
             if r == 'sat':
                 wit = None
-                if mode == 'order':
+                if mode in ('order', 'order2'):
                     # realise: same decisions, exact geometry
                     ctx2 = Ctx(list(ctx.decisions)); Ctx.cur = ctx2
                     try:
-                        res2 = make_run(R, 'exact')(ctx2)
+                        res2 = make_run(R, 'exact' if mode == 'order' else 'exact2')(ctx2)
+                        if mode == 'order2':
+                            res2 = res2[0]
                         orc2 = _oracle(Fv, Mv, R, exactD, n1, n2)
                         r2, s2, m2 = ctx2.prove(expr(res2) == orc2, cap)
                         if r2 == 'sat':
@@ -207,6 +226,26 @@ def run_case(case):
             records.append(rec)
             r, secs, m = ctx.prove(val >= 0, cap)
             records.append({'name': '%s path%d: value >= 0' % (tag, np_here), 'status': r, 'secs': secs})
+            if second is not None:
+                # history: the same calculator evaluated a first configuration before; the second value must still be the
+                # reference definition of the second configuration alone
+                claim2 = expr(second) == orc2nd
+                r, secs, m = ctx.prove(claim2, cap)
+                rec2 = {'name': '%s path%d: second call on the same calculator == reference definition' % (tag, np_here), 'status': r, 'secs': secs}
+                if r == 'sat':
+                    ctx2 = Ctx(list(ctx.decisions)); Ctx.cur = ctx2
+                    try:
+                        rr = make_run(R, 'exact2')(ctx2)
+                        o2 = _oracle(Fv, M2v, R, exactD2, n1, n2)
+                        r2, s2, m2 = ctx2.prove(expr(rr[1]) == o2, cap)
+                        if r2 == 'sat':
+                            rec2['witness'] = {'kind': 'chi2-two-calls', 'n1': n1, 'n2': n2, 'R': R,
+                                               'inputs': concretize_inputs(ctx2, [expr(rr[1]) != o2], coord_inputs, m2, grids=(1, 2, 4))}
+                        else:
+                            rec2['status'] = 'unknown'; rec2['detail'] = 'not realised by exact geometry (%s)' % r2
+                    except BaseException as e:  # noqa
+                        rec2['status'] = 'unknown'; rec2['detail'] = 'realisation failed: %r' % (e,)
+                records.append(rec2)
             st['queries'] += ctx.queries; st['solver_s'] += ctx.solver_time
             if len(samples) < 2:
                 samples.append({'restraints': R, 'mode': mode, 'path_condition': [str(p)[:100] for p in ctx.pc][:5],
@@ -257,6 +296,15 @@ def replay(w):
         F = np.array([[v['f%d_%d' % (i, k)] for k in range(3)] for i in range(n1)])
         A = np.array([[v['a%d_%d' % (i, k)] for k in range(3)] for i in range(n2)])
         M = np.array([[v['m%d_%d' % (i, k)] for k in range(3)] for i in range(n2)])
+    if w['kind'] == 'chi2-two-calls':
+        Q = np.array([[v['q%d_%d' % (i, k)] for k in range(3)] for i in range(n2)])
+        calc = Chi2Calculator(F, A, R if R else None)
+        calc(M)
+        got = calc(Q)
+        want = _reference_float(F, Q, R)
+        bad = abs(got - want) > 1e-9 * max(1, abs(want))
+        return {'reproduced': bool(bad), 'what': 'Chi2Calculator (second call on the same calculator): value %.12g != reference %.12g' % (got, want),
+                'detail': {'F': F.tolist(), 'M': M.tolist(), 'Q': Q.tolist(), 'R': R}}
     got = Chi2Calculator(F, A, R if R else None)(M)
     want = _reference_float(F, M, R)
     bad = abs(got - want) > 1e-9 * max(1, abs(want)) or got < 0
